@@ -140,8 +140,17 @@ def oracle(ctx, name, line, obs, cap, koh_mask, valid=None):
     first_rep = {}     # code -> the next repeat is the first one after a press event
     ticks_since = {}   # code -> scan ticks (strobed or not) since the key's last press / repeat event
     since_press = {}   # code -> scan ticks since the latest press call for the key
+    # the chattering-key clause is judged on histories of one key with all columns strobed from the start and plain ticks only
+    _keys = {o.split(":")[1] for o in ops if o.startswith(("p:", "r:"))}
+    simple_chatter = (len(_keys) == 1 and not any(o.startswith(("kol:", "koh:")) for o in ops[2:]) and ops[:2] == (["kol:255", "koh:7"] if ah else ["kol:0", "koh:0"])
+                      and not any(o.startswith(("inj:", "con")) for o in ops) and "rd" not in ops[:-1])
     await_rel = {}     # code -> scan ticks since the release call of a key whose press event was seen (its release event is due)
     inj_only = any(o.startswith("inj:") for o in ops) and not any(o.startswith(("p:", "r:", "rd")) for o in ops)
+    if inj_only:
+        # ... with every column strobed from the first operation on (an injected key on an idle column is scanned as released)
+        strobe = ["kol:255", "koh:7"] if ah else ["kol:0", "koh:0"]
+        if ops[:2] != strobe or any(o.startswith(("kol:", "koh:")) for o in ops[2:]):
+            inj_only = False
     if inj_only:
         # well-formed injection history: press only keys that are up, release only keys that are down
         dn = set()
@@ -272,7 +281,7 @@ def oracle(ctx, name, line, obs, cap, koh_mask, valid=None):
                                 ctx.report([name, "repeat_event_early"], f"{name}: key {c} repeats {since_evt[c]} strobed ticks after its previous event; the configured {'delay' if first_rep.get(c, True) else 'interval'} is {need}",
                                            {"case": " ".join(w[:7] + ops[:k + 1])})
                                 return
-                        elif rep and c in ticks_since and c in dirty and not repressed.get(c, False):
+                        elif rep and c in ticks_since and c in dirty and not repressed.get(c, False) and simple_chatter:
                             # a key that was released and pressed again inside the release interval is still the same logical
                             # press: another press-like event cannot come sooner after its previous event than the cadence allows
                             # allowed: the cadence simply continues (>= interval, or >= delay for the first repeat, since the
